@@ -464,6 +464,11 @@ def run(chk):
             if attr and f.qualname not in allowed[attr]:
                 r4.fail("%s:writes-%s" % (f.qualname, attr), "%s modifies %s outside the failover state machine" % (f.qualname, attr), fn=f, node=n)
     r4.ok("failing/dead sets are written only by the failover methods")
+    # ------------------------------------------------------------------ R6 rerouting follows the rotation
+    r6 = chk.rule("C13.R6", "rerouting and recovery take effect at once: every call asks the hasher afresh (no placement is remembered across eviction / revival)")
+    from . import rules_C12, report
+
+    report.include_rules(chk, r6, rules_C12, ("C12.R1", "C12.R2"), "while a server is out its keys go to the remaining servers and return to it after revival only if placement is recomputed from the servers currently in rotation on every call")
     chk.assume("retry_timeout < dead_timeout, as in the property")
     chk.assume("time.time() is monotone between the calls of one operation")
 
